@@ -322,8 +322,62 @@ class Episode(object):
             ws = [self.world.make_watcher(wc) for wc in self.cfg['watchers']]
             self.world.build(watchers=ws, sockets=self.lsocks)
             self.world.kernel.on_spawn = self.accept_for
+        elif self.cfg.get('from_ini'):
+            # the daemon is built from a real configuration file, so that
+            # reloadconfig requests (and edits of the file) are possible
+            import os
+            self.ini_path = os.path.join(self.world.scratch_dir(),
+                                         'circus.ini')
+            self.ini_np = {}
+            self.ini_env = {}
+            self.write_ini()
+            for wc in self.cfg['watchers']:
+                self.world.mix[wc.get('marker', wc['name'])] = wc.get('mix')
+            self.world.build_from_ini(self.ini_path)
         else:
             self.world.build()
+
+    INI_OPTS = ('numprocesses', 'graceful_timeout', 'warmup_delay',
+                'singleton', 'stop_signal', 'stop_children', 'respawn',
+                'priority', 'autostart', 'max_age', 'max_age_variance',
+                'max_retry', 'send_hup')
+
+    def write_ini(self):
+        from . import ini
+        ws = []
+        for i, wc in enumerate(self.cfg['watchers']):
+            ent = {'name': wc['name'],
+                   'cmd': wc.get('cmd') or
+                   'worker --marker=%s' % wc.get('marker', wc['name'])}
+            for k in self.INI_OPTS:
+                if k in wc.get('opts', {}):
+                    ent[k] = wc['opts'][k]
+            if i in self.ini_np:
+                ent['numprocesses'] = self.ini_np[i]
+            ws.append(ent)
+        envs = [(self.cfg['watchers'][i]['name'], e)
+                for i, e in sorted(self.ini_env.items())]
+        txt = ini.render(
+            circus={'check_delay': self.cfg.get('check_delay', 1.0),
+                    'warmup_delay': self.cfg.get('warmup_delay', 0)},
+            watchers=ws, env_sections=envs)
+        with open(self.ini_path, 'w') as f:
+            f.write(txt)
+
+    def op_editini(self, i, op):
+        """the configuration file is edited (numprocesses of one watcher,
+        or its environment - which makes reloadconfig replace the watcher)"""
+        def fire():
+            if not self.cfg.get('from_ini'):
+                return
+            wi = op.get('w', 0) % len(self.cfg['watchers'])
+            if 'np' in op:
+                self.ini_np[wi] = op['np']
+            if 'env' in op:
+                self.ini_env[wi] = op['env']
+            self.write_ini()
+            self.fired['editini'] += 1
+        self.place(op.get('place'), fire, 'op')
 
     def op_connect(self, i, op):
         """a client connects to a managed socket (socket event)"""
